@@ -84,6 +84,7 @@ type tfWorld struct {
 	subReal map[string]string // label -> real subdenom
 	subLab  map[string]string
 	fee     int64
+	nTargets int // module accounts named as targets so far (every second one spelled in upper case)
 }
 
 // module accounts standing for abstract names of the bounded model
@@ -179,6 +180,20 @@ func (w *tfWorld) bech(name string) string {
 	return a.String()
 }
 
+// target renders the address of an account a message points at.  Every second time a protected module account
+// is named it is spelled in all upper-case bech32: a legal spelling (BIP-173) that decodes to the same account,
+// so guards that compare address STRINGS instead of decoded addresses are exercised.
+func (w *tfWorld) target(name string) string {
+	b := w.bech(name)
+	if b != "" && w.isMod(name) {
+		w.nTargets++
+		if w.nTargets%2 == 0 {
+			return strings.ToUpper(b)
+		}
+	}
+	return b
+}
+
 func (w *tfWorld) denom(c, sub string) string {
 	real, ok := w.subReal[sub]
 	if !ok {
@@ -213,11 +228,11 @@ func (w *tfWorld) run(ctx sdk.Context, m specMsg, commit bool, inspect func(sdk.
 		}
 		msg = tftypes.NewMsgCreateDenom(w.bech(m.S), real)
 	case "mint":
-		msg = tftypes.NewMsgMintTo(w.bech(m.S), coin(), w.bech(m.X))
+		msg = tftypes.NewMsgMintTo(w.bech(m.S), coin(), w.target(m.X))
 	case "burn":
-		msg = tftypes.NewMsgBurnFrom(w.bech(m.S), coin(), w.bech(m.X))
+		msg = tftypes.NewMsgBurnFrom(w.bech(m.S), coin(), w.target(m.X))
 	case "force":
-		msg = tftypes.NewMsgForceTransfer(w.bech(m.S), coin(), w.bech(m.X), w.bech(m.Y))
+		msg = tftypes.NewMsgForceTransfer(w.bech(m.S), coin(), w.target(m.X), w.target(m.Y))
 	case "admin":
 		cm := tftypes.NewMsgChangeAdmin(w.bech(m.S), d, w.bech(m.X))
 		msg = cm
